@@ -5,7 +5,7 @@ TLC side : spec/C15/C15_Defs.tla   reference operators (elementwise, mixed-radix
                                    _dim_compressor, _trace_keep/_trace_lose
            spec/C15/C15_Kron.tla   state machine of kron(ownership=(ri, rf)) : every dims list,
                                    every 0 <= ri < rf <= D; prints its cases (replayed here)
-           spec/C15/C15_Ptr.tla    state machine of the sparse partial trace (code / repaired)
+           spec/C15/C15_Ptr.tla    state machine of the sparse partial trace (code; pre-repair deviation)
            spec/C15/C15_Laws.tla   the laws of the statement checked on the reference itself,
                                    ikron's placement generator against the reference; prints cases
            spec/C15/C15_Trace.tla  judges every observation recorded here
@@ -404,8 +404,6 @@ def replay_sel_case(rng, recs, dims, sel, ci, src, thorough):
             A = _imat(rng, dsel, dsel, cplx)
             xd = x if x.shape[1] > 1 else x @ x.conj().T
             for fmt in ("dense", "csr"):
-                if fmt != "dense" and degenerate:
-                    continue  # the sparse route is the known finding there (reported by the ptr event)
                 r = dict(tag, ev="adjoint", A=_mat(A if cplx else A.real), x=_mat(x if cplx else x.real), dims=dims, keep=sel,
                          kind=kind, fmt=fmt, exc="", trE=[0, 0], trP=[0, 0], xdo=bool(dsel > 1), xexc="", xE=[0, 0], xP=[0, 0])
                 try:
@@ -459,7 +457,7 @@ def replay_sel_case(rng, recs, dims, sel, ci, src, thorough):
     if not thorough:
         # quick tier: the two dense-critical operator pairs always, two of the others rotating with the case
         rest = pairs[2:]
-        pairs = pairs[:2] + [rest[ci % len(rest)], rest[(ci + 3) % len(rest)]]
+        pairs = pairs[:2] + [rest[ci % len(rest)]] + ([rest[(ci + 3) % len(rest)]] if ci % 2 else [])
     for pname, a, b in pairs:
         base = dict(tag, ev="expec", a=_mat(a if cplx else a.real), b=_mat(b if cplx else b.real), pair=pname)
         var = []
@@ -586,13 +584,12 @@ def observe_lattice(rng, thorough):
                     var.append(("dense/%s/list" % dt, dt, lambda v=v: qu.ptr(v, lat.tolist(), [tuple(c) for c in coos])))
                     var.append(("dense/%s/array" % dt, dt, lambda v=v: qu.ptr(v, lat, [tuple(c) for c in coos])))
                 _emit(recs, base, var, {"sparse": False})
-                if 1 not in dflat:
-                    var = []
-                    for fmt in SPARSE:
-                        v = _cast(x, fmt, "complex128")
-                        var.append(("%s/list" % fmt, "complex128", lambda v=v: qu.ptr(v, lat.tolist(), [tuple(c) for c in coos]),
-                                    fmt in ("coo", "bsr")))
-                    _emit(recs, base, var, {"sparse": True})
+                var = []
+                for fmt in SPARSE:
+                    v = _cast(x, fmt, "complex128")
+                    var.append(("%s/list" % fmt, "complex128", lambda v=v: qu.ptr(v, lat.tolist(), [tuple(c) for c in coos]),
+                                fmt in ("coo", "bsr")))
+                _emit(recs, base, var, {"sparse": True})
     return recs
 
 
@@ -791,7 +788,7 @@ def observe_large(rng, ncases):
         rv, kv = _cast(rho, fmt, dt), _cast(psi, fmt, dt)
         rec("permute", Pr, lambda: qu.permute(rv, dims, perm), pd, pd, note=fmt)
         rec("permute-ket", Pk, lambda: qu.permute(kv, dims, perm), pd, [1], note=fmt)
-        sparse_deg = fmt != "dense" and (1 in dims)
+        sparse_deg = False  # (sparse partial trace with subsystems of dimension 1: repaired, exercised like the rest)
         if not sparse_deg:
             kd = [dims[s] for s in sorted(sel)]
             R = _np_ptr(rho, dims, sel)
@@ -885,16 +882,14 @@ def run(ctx):
                 "LawPermuteEmbed", "LawPKron", "LawPartialTranspose", "LawEmbed", "LawExpec", "Emit")
         f_laws = pool.submit(_retry, ctx.model_check, "MC_C15Laws", "MC_laws_%s.cfg" % tier, name="laws-on-reference",
                              require_actions=laws, workers=nw)
-        # 2. TLC: sparse partial trace. The code variant holds where no subsystem has dimension 1 and something is
-        #    kept, is rejected on the whole scope (the defect, at design level), and the proposed repair holds there.
-        f_ptr = [pool.submit(_retry, ctx.model_check, "MC_C15Ptr", "MC_ptr_%s.cfg" % tier, name="sparse-ptr(code, dims>1)",
-                             require_actions=("Enter", "Compress", "KeepOne", "LoseOne"), workers=4),
-                 pool.submit(_retry, ctx.model_check, "MC_C15Ptr", "MC_ptr_repaired_%s.cfg" % tier, name="sparse-ptr(repaired, all dims)",
-                             require_actions=("Enter", "Compress", "KeepOne", "LoseOne"), workers=4)]
+        # 2. TLC: sparse partial trace on the whole scope (subsystems of dimension 1 and the empty keep included);
+        #    the code before the repair of the size-1 defect is kept as a named deviation that TLC must reject.
+        f_ptr = [pool.submit(_retry, ctx.model_check, "MC_C15Ptr", "MC_ptr_%s.cfg" % tier, name="sparse-ptr(all dims, all keeps)",
+                             require_actions=("Enter", "Compress", "KeepNone", "KeepOne", "LoseOne"), workers=4)]
 
         def selftests():
             r1 = _retry(T.run_tlc, "MC_C15", "MC_nocorrect.cfg", ctx.spec_dir, workers=2, allow_violation=True, scratch=ctx.scratch)
-            r2 = _retry(T.run_tlc, "MC_C15Ptr", "MC_ptr_defect.cfg", ctx.spec_dir, workers=2, allow_violation=True, scratch=ctx.scratch)
+            r2 = _retry(T.run_tlc, "MC_C15Ptr", "MC_ptr_prefix.cfg", ctx.spec_dir, workers=2, allow_violation=True, scratch=ctx.scratch)
             return r1, r2
 
         f_self = pool.submit(selftests)
@@ -962,9 +957,9 @@ def run(ctx):
         if r1.violated != "OwnRowsExact":
             raise MachineryError("model self-test: kron without the over-slice correction was not rejected by TLC")
         ctx.extra["model_selftest_kron"] = "dropping the over-slice correction violates OwnRowsExact (%d states)" % r1.distinct
-        ctx.extra["model_ptr_code_on_whole_scope"] = (
-            "TLC rejects the pinned _dim_compressor/_partial_trace_simple on dims with a 1 / empty keep: %s violated" % r2.violated
-            if r2.violated else "TLC accepts the pinned sparse partial trace on the whole scope (the defect is gone)")
+        if r2.violated != "PtrShape":
+            raise MachineryError("model self-test: the sparse partial trace without the size-1 repair was not rejected by TLC")
+        ctx.extra["model_selftest_ptr"] = "the code before the size-1 repair violates PtrShape (%d states)" % r2.distinct
         fails = f_kv.result()
     finally:
         pool.shutdown(wait=True)
@@ -1001,7 +996,7 @@ def run(ctx):
         "PtrReturns", "PtrShape", "PtrValue", "PtrCoordinatesValue", "Adjoint", "AdjointExpec", "ExpecReturns", "ExpecValue", "PTransposeReturns", "PTransposeShape",
         "PTransposeValue", "DimMapValue", "HamFullReturns", "HamOwnedRows", "LargeScopeAgrees",
         "model: OwnRowsExact ClosedFormAgrees ProductCovers GotIsRange DigitsInRange",
-        "model: PtrExact PtrShape CompressFaithful DescriptionFits Terminates",
+        "model: PtrExact PtrShape CompressFaithful DescriptionFits Terminates (whole scope; pre-repair variant rejected)",
         "model: AllLawsHold (Kron Adjoint AdjointOrdered KetProjector PTraceProduct PermuteKron PermuteEmbed PKron PartialTranspose Embed Expec)",
     ])
     ctx.assumptions += [
